@@ -127,10 +127,26 @@ def model_dest(names):
     return [loads(x) for x in common.run_model_batch(reqs)]
 
 
-def run_case(doc, fmt, name, preexisting, fault, scratch):
-    """Returns (record, failures).  fault: None | ('write', k) | ('move',)."""
+def other_filesystem_dir():
+    """a directory on another file system than the scratch area (shutil.move then copies and unlinks instead of
+    renaming), or None when the sandbox offers none"""
+    for cand in ("/dev/shm", "/run/shm"):
+        try:
+            if os.path.isdir(cand) and os.access(cand, os.W_OK) and os.stat(cand).st_dev != os.stat(tempfile.gettempdir()).st_dev:
+                return cand
+        except OSError:
+            pass
+    return None
+
+
+def run_case(doc, fmt, name, preexisting, fault, scratch, cross_fs=False):
+    """Returns (record, failures).  fault: None | ('write', k) | ('move',).  cross_fs: the temp directory is on another
+    file system than the destination."""
     work = os.path.join(scratch, "work")
     tmpd = os.path.join(scratch, "tmp")
+    xfs = other_filesystem_dir() if cross_fs else None
+    if xfs:
+        tmpd = os.path.join(xfs, "c17_tmp_%d" % os.getpid())
     for p in (work, tmpd):
         shutil.rmtree(p, ignore_errors=True)
         os.makedirs(p)
@@ -252,10 +268,12 @@ def run_case(doc, fmt, name, preexisting, fault, scratch):
         os.chdir(cwd)
         tempfile.tempdir = old_tmp
     after = snapshot(work)
-    leftovers = os.listdir(tmpd)
+    leftovers = os.listdir(tmpd) if os.path.isdir(tmpd) else []
     rel = os.path.relpath(target_abs, work)
     changed = sorted(k for k in set(before) | set(after) if before.get(k) != after.get(k))
-    rec = {"name": name, "fmt": fmt, "preexisting": preexisting, "fault": fault, "writes": writes[0],
+    if xfs:
+        shutil.rmtree(tmpd, ignore_errors=True)
+    rec = {"name": name, "fmt": fmt, "preexisting": preexisting, "fault": fault, "writes": writes[0], "cross_fs": bool(xfs),
            "raised": type(raised).__name__ if raised else None, "changed": changed, "tmp_leftover": len(leftovers)}
     if fault is None:
         if raised is not None:
@@ -327,9 +345,19 @@ def run(tier, seed, log, model_runs=True, enlarged=False):
                         cases.append((d, fmt, name, pre, ("fsize",)))
                         for k in range(0, 4 if tier == "quick" else 8):
                             cases.append((d, fmt, name, pre, ("write", k)))
+        # the temp directory on another file system than the destination (the final move is then a copy and an unlink):
+        # small and multi-block documents, every format, with and without a pre-existing file, no fault and a failing move
+        if other_filesystem_dir():
+            for fmt in fmts:
+                for pre in (False, True, "same-length"):
+                    for d in (ds[:2] if len(ds) > 1 else ds):
+                        cases.append((d, fmt, "out.json", pre, None, True))
+                        cases.append((d, fmt, "{abs}/sp ace#1.json", pre, ("move",), True))
         for name in REFUSED:
             cases.append((ds[0], "json", name, False, None))
-        for d, fmt, name, pre, fault in cases:
+        for case in cases:
+            d, fmt, name, pre, fault = case[:5]
+            cross = len(case) > 5 and case[5]
             if name in REFUSED:
                 # must write nothing at all
                 work = os.path.join(scratch, "work")
@@ -349,14 +377,14 @@ def run(tier, seed, log, model_runs=True, enlarged=False):
                                                                             "files": sorted(wrote)}, "case": [fmt, name]})
                 continue
             try:
-                rec, fails = run_case(d, fmt, name, pre, fault, scratch)
+                rec, fails = run_case(d, fmt, name, pre, fault, scratch, cross_fs=cross)
             except Exception:
                 violations.append({"kind": "harness-error", "what": "harness error", "detail": traceback.format_exc()[-1500:]})
                 continue
             recs.append(rec)
             for f in fails:
                 violations.append({"kind": "failing-input", "failure": f,
-                                   "case": {"format": fmt, "name": name, "preexisting": pre, "fault": fault}})
+                                   "case": {"format": fmt, "name": name, "preexisting": pre, "fault": fault, "temp_dir_on_another_file_system": bool(cross)}})
         try:
             n_cd, cd_fails = chdir_sequences(ds, scratch)
         except Exception:
@@ -396,7 +424,7 @@ def run(tier, seed, log, model_runs=True, enlarged=False):
         "evaluations": len(recs),
         "distinct_nontrivial": len({(r.get("name"), r.get("fmt"), r.get("preexisting"), str(r.get("fault"))) for r in recs if not r.get("refused")}),
         "rule": "working-directory sequences (one relative name written from directory A, B, A, C, B: 3 names x 5 calls); file-write cases = format x file name (relative, nested, absolute, spaces, non-ASCII, '#', '?', ';', ':', file: URL) "
-                "x pre-existing destination or not x fault (none, the k-th write call of the stream, the flush at close, the final move, a file-size limit at half the document so that the operating system cuts the write short); each runs "
+                "x pre-existing destination or not x temp directory on the same / on another file system x fault (none, the k-th write call of the stream, the flush at close, the final move, a file-size limit at half the document so that the operating system cuts the write short); each runs "
                 "in a scratch directory with its own temp directory; distinct = distinct (name, format, preexisting, fault)",
         "samples": recs[:2] + recs[-2:],
         "traces_validated_against_impl": len([r for r in recs if not r.get("fault")]) if model_runs else 0,
